@@ -61,7 +61,8 @@ contract(TR + "get_ttree_type", props=["C03", "C10", "C09"], params=dict(rep=REP
                  "is_plain_value(rep) and field(type_of(rep), '_tree_type') != None"],
          modifies=["_type@" + CRQ + "cpp_sequence", "alloc"], may_raise=["Exception"], strict=False,
          raises={"RuntimeError": "isinst(rep, '" + CRQ + "cpp_sequence') and not (isinst(seq_value(rep), '" + CRQ + "cpp_value') or isinst(seq_value(rep), '" + CRQ + "cpp_sequence'))"},
-         ensures=[("scalar_column@C03,C10", "implies(is_plain_value(rep) and not isinst(rep, '" + CRQ + "cpp_sequence'), result != None and live(result) and "
+         ensures=[("some_type", "result != None and live(result)"),
+                  ("scalar_column@C03,C10", "implies(is_plain_value(rep) and not isinst(rep, '" + CRQ + "cpp_sequence'), result != None and live(result) and "
                                              "field(result, '_type', 'func_adl_xAOD.common.cpp_types.terminal') == leaf_kind(old(type_of(rep))) and "
                                              "field(result, '_p_depth') == field(old(type_of(rep)), '_p_depth'))"),
                   ("vector_column@C03,C10", "implies(isinst(rep, '" + CRQ + "cpp_sequence') and is_plain_value(seq_value(rep)), "
@@ -79,6 +80,31 @@ contract(TR + "query_ast_visitor.code_fill_ttree", assumed=True,
          note="fill placement for one column (nested closures, recursion over sequence levels): under the CVC only")
 
 LEAVES = TList(TTup([Str, VAL]))
+CVAR = "func_adl_xAOD.common.cpp_representation.cpp_variable"
+TUP = "func_adl_xAOD.common.cpp_representation.cpp_tuple"
+
+
+def col_values(t):
+    "the column values of the (normalised) tuple of the final sequence"
+    return field(t, "_values", "func_adl_xAOD.common.cpp_representation.cpp_tuple")
+
+
+def class_vars(self):
+    return field(gc_of(self), "_class_vars")
+
+
+def column_var_ok(pair, name):
+    "the storage of one column: a fresh class-level variable named after the column"
+    return (pair[0] == name and pair[1] != None and cls_is(pair[1], "func_adl_xAOD.common.cpp_representation.cpp_variable") and
+            startswith(expr_of(pair[1]), "_" + name) and field(pair[1], "_initial_value") == None and type_of(pair[1]) != None)
+
+
+RT_COLS = [("L.columns", "all(column_var_ok(var_names[k], column_names[k]) for k in range(0, len(var_names)))"),
+           ("L.count", "len(var_names) == len(column_names)")]
+RT_MEMBERS = [("L.members", "len(class_vars(self)) >= g_cv0 + len(var_names) and "
+                            "all(class_vars(self)[q] == var_names[q - g_cv0][1] for q in range(g_cv0, g_cv0 + len(var_names)))")]
+RT_BOOK = [("L.booked", "g_book != None and g_bk0 >= 0 and g_bk0 < len(field(field(gc_of(self), '_book_block'), '_statements')) and "
+                        "field(field(gc_of(self), '_book_block'), '_statements')[g_bk0] == g_book")]
 RT_INV = CVC_LOOP_INV
 
 contract(TR + "query_ast_visitor.call_ResultTTree", props=["C03", "C05", "C09", "C02"], replay="ttree_label_mismatch",
@@ -87,21 +113,43 @@ contract(TR + "query_ast_visitor.call_ResultTTree", props=["C03", "C05", "C09", 
                                   ("cursor", "len(cursor(self)) >= 1 and all(b != None and live(b) for b in cursor(self))"),
                                   ("book", "field(gc_of(self), '_book_block') != None and live(field(gc_of(self), '_book_block'))")],
          modifies=CVC_MODIFIES + ["_tree_name", "_leaves", "filename", "treename"], may_raise=["Exception"], strict=False,
-         local_sorts=dict(column_names=TList(Str), var_names=LEAVES),
+         local_sorts=dict(column_names=TList(Str), var_names=LEAVES, g_cv0=Int, g_book=Ref, g_bk0=Int, g_desc=Ref),
+         ghost_init=["g_cv0 = 0", "g_book = None", "g_bk0 = 0", "g_desc = None"],
+         ghost={"after:var_names = [": ["g_cv0 = len(class_vars(self))"],
+                "after:crep.set_rep(": ["g_desc = rep_of(node)"],
+                "after:self._gc.add_book_statement(": ["g_bk0 = len(field(field(gc_of(self), '_book_block'), '_statements')) - 1",
+                                                       "g_book = field(field(gc_of(self), '_book_block'), '_statements')[g_bk0]"]},
          ensures=CVC_ENSURES + [
-             ("label_count@C03,C09", "len(field(final_seq_values, '_values', '" + CRQ + "cpp_tuple')) == len(final_column_names)"),
+             ("label_count@C03,C09", "len(col_values(final_seq_values)) == len(final_column_names)"),
+             ("one_variable_per_column@C03,C02", "len(final_var_names) == len(final_column_names) and "
+                                                 "all(column_var_ok(final_var_names[k], final_column_names[k]) for k in range(0, len(final_var_names)))"),
+             ("columns_are_class_members@C03,C02", "len(class_vars(self)) >= final_g_cv0 + len(final_var_names) and "
+                                                   "all(class_vars(self)[q] == final_var_names[q - final_g_cv0][1] "
+                                                   "for q in range(final_g_cv0, final_g_cv0 + len(final_var_names)))"),
+             ("one_booking_statement@C03", "final_g_book != None and isinst(final_g_book, '" + "func_adl_xAOD.common.statement.book_ttree" + "') and "
+                                           "field(final_g_book, '_tree_name') == final_tree_name and seq_eq(field(final_g_book, '_leaves'), final_var_names) and "
+                                           "field(field(gc_of(self), '_book_block'), '_statements')[final_g_bk0] == final_g_book"),
+             ("descriptor@C03", "final_g_desc != None and cls_is(final_g_desc, 'func_adl_xAOD.common.result_ttree.cpp_ttree_rep') and "
+                                "field(final_g_desc, 'treename') == final_tree_name and field(final_g_desc, 'filename') == 'ANALYSIS.root' and rep_of(node) == result"),
          ],
-         loops={"comp1": dict(sorts={"_comp1": LEAVES}, modifies=CVC_MODIFIES, invariant=RT_INV + [("L.len", "len(_comp1) == _i")]),
-                1: dict(modifies=["_class_vars"], invariant=RT_INV),
-                2: dict(modifies=CVC_MODIFIES, invariant=RT_INV),
-                3: dict(modifies=["_statements"], invariant=RT_INV)})
+         loops={"comp1": dict(sorts={"_comp1": LEAVES}, modifies=CVC_MODIFIES + ["_type@" + CRQ + "cpp_sequence"],
+                              needs={"L.built": ["L.built", "L.len"]},
+                              invariant=RT_INV + [("L.len", "len(_comp1) == _i and _i <= len(column_names)"),
+                                                  ("L.built", "all(column_var_ok(_comp1[k], column_names[k]) for k in range(0, _i))")]),
+                1: dict(modifies=["_class_vars"], needs={"L.columns": ["L.built", "L.len"], "L.count": ["L.len"]},
+                        invariant=RT_INV + RT_COLS + [("L.appended", "len(class_vars(self)) == g_cv0 + _i and "
+                                                                      "all(class_vars(self)[q] == var_names[q - g_cv0][1] for q in range(g_cv0, g_cv0 + _i))")]),
+                2: dict(modifies=CVC_MODIFIES, invariant=RT_INV + RT_COLS + RT_MEMBERS + RT_BOOK + [("L.book", "field(gc_of(self), '_book_block') == old(field(gc_of(self), '_book_block'))")]),
+                3: dict(modifies=["_statements"], invariant=RT_INV + RT_COLS + RT_MEMBERS + RT_BOOK)})
 
 # ---- per-backend booking / fill statement factories: one virtual contract, every override verified against it -------
 BOOKT = "func_adl_xAOD.common.statement.book_ttree"
 FILLT = "func_adl_xAOD.common.statement.ttree_fill"
 _book_ens = [("booking_statement", "result != None and is_new(result) and isinst(result, '" + BOOKT + "') and field(result, '_tree_name') == tree_name "
-                                   "and seq_eq(field(result, '_leaves'), leaves)")]
-_fill_ens = [("fill_statement", "result != None and is_new(result) and isinst(result, '" + FILLT + "') and field(result, '_tree_name') == tree_name")]
+                                   "and seq_eq(field(result, '_leaves'), leaves)"),
+             ("nothing_else", "frame('_tree_name', result) and frame('_leaves', result)")]
+_fill_ens = [("fill_statement", "result != None and is_new(result) and isinst(result, '" + FILLT + "') and field(result, '_tree_name') == tree_name"),
+             ("nothing_else", "frame('_tree_name', result)")]
 contract(TR + "query_ast_visitor.create_book_ttree_obj", virtual=True, assumed=True, params=dict(self=QV, tree_name=Str, leaves=LEAVES),
          result=RefOf(BOOKT), modifies=["_tree_name", "_leaves", "alloc"], ensures=_book_ens,
          note="abstract; the three back-end overrides are verified against the same clauses below")
